@@ -12,7 +12,7 @@ def same_float(a, b):
     return struct.pack("<d", a) == struct.pack("<d", b)
 
 
-def ap_from_scenario(src, fields, levels, ndims=3, time=0.5, classes_from_cells=True):
+def ap_from_scenario(src, fields, levels, ndims=3, time=0.5, classes_from_cells=True, cross=(3, 2)):
     """Scenario levels [{"cells":[..],"file":[..],"disk":[[..],..]}] -> abstract plotfile for gamma."""
     from . import gamma
     level_classes = [[c - 1 for c in L["cells"]] for L in levels]
@@ -24,7 +24,7 @@ def ap_from_scenario(src, fields, levels, ndims=3, time=0.5, classes_from_cells=
         else:
             d = {str(i + 1): list(v) for i, v in enumerate(disk)}
         layouts.append({"file": list(L["file"]), "disk": d})
-    return gamma.make_ap(src, fields, level_classes, layouts, ndims=ndims, time=time)
+    return gamma.make_ap(src, fields, level_classes, layouts, ndims=ndims, time=time, cross=cross)
 
 
 def compare_content(expect, obs, aps, in_contents, check_mm=True):
